@@ -6,5 +6,6 @@ CONSTANTS
   Bug = "inter"
   Emit = FALSE
   Samples = 0
+  EmitMod = 1
 INVARIANTS InvVisit EmitInv
 CHECK_DEADLOCK FALSE
